@@ -338,12 +338,13 @@ struct DCase {
     a.f("h", h);
   }
 };
-static const pixman_format_code_t MF[] = {PIXMAN_a8, PIXMAN_a1, PIXMAN_a4, PIXMAN_a8r8g8b8};
+// (a caller may ask for any mask format; the ones with alpha and colour in another channel order are component-alpha masks too)
+static const pixman_format_code_t MF[] = {PIXMAN_a8, PIXMAN_a1, PIXMAN_a4, PIXMAN_a8r8g8b8, PIXMAN_a8b8g8r8, PIXMAN_b8g8r8a8, PIXMAN_r8g8b8a8};
 static DCase gen_draw() {
   DCase c;
   c.op = coin(60) ? pick<int>({PIXMAN_OP_OVER, PIXMAN_OP_ADD, PIXMAN_OP_SRC, PIXMAN_OP_IN}) : (int)R(PIXMAN_OP_CLEAR, PIXMAN_OP_SATURATE);
   c.masked = coin(50);
-  c.mask_fmt = pickw({4, 2, 2, 3});
+  c.mask_fmt = pickw({4, 2, 2, 3, 1, 1, 1});
   c.dst.kind = 0;
   c.dst.bits = gen_bits(fmt_index(pick<pixman_format_code_t>({PIXMAN_a8r8g8b8, PIXMAN_x8r8g8b8, PIXMAN_r5g6b5, PIXMAN_a8, PIXMAN_a8b8g8r8, PIXMAN_b5g6r5, PIXMAN_a1, PIXMAN_r8g8b8})), 1, 1);
   c.dst.bits.w = (int)R(1, 30);
